@@ -226,6 +226,9 @@ func runC06(p *P, r *R) {
 	// ---- R06.7 per-stream byte order across the two transports: once bytes left through the connection the stream stays
 	// there (sticky mark, set whenever the buffer spilled out of shared memory) (shared with C07 R07.2 / R07.3)
 	borrow(p, r, "C07", runC07, map[string]string{"R07.2": "R06.7", "R07.3": "R06.7"}, nil)
+	// ---- R06.8 no byte is delivered twice on the socket path: consumed event bytes never re-enter the receive window
+	// (shared with C18 R18.4 / C13 R13.7)
+	c18Window(p, r, "R06.8")
 
 	// ---- R06.4 cursor writers
 	cursorOwners := map[string]bool{
